@@ -1,2 +1,181 @@
-/- Model driver for C09 (line protocol). Stub until the property's model lands. -/
-def main : IO Unit := pure ()
+/-
+  Model driver for C09 (line protocol of harness/c09_main.c). Imports Model + Gen only.
+  For every op the driver prints what the model predicts for the part of the harness line before " | "
+  (the rest of a harness line is judged by the direct checks in tools/props/c09.py).
+-/
+import XzVerif.Model.Proto
+import XzVerif.Model.Memusage
+import XzVerif.Model.MemusageBuild
+import XzVerif.Model.Memlimit
+import XzVerif.Model.XzAdjust
+open XzVerif XzVerif.Proto XzVerif.Memusage XzVerif.Memlimit
+
+def B : Build := thisBuild
+
+def u64 (o : Option Nat) : String := toString (o.getD UINT64_MAX)
+
+def parseLzma (ps : List String) : Option LzmaOpts :=
+  match ps.mapM String.toNat? with
+  | some [d, lc, lp, pb, mode, nice, mf, depth] =>
+    some { dict := d, lc := lc, lp := lp, pb := pb, mode := mode, nice := nice, mf := mf, depth := depth }
+  | _ => none
+
+def parseFilter (s : String) : Option Filter :=
+  match s.splitOn ":" with
+  | "l1" :: ps => (parseLzma ps).map Filter.lzma1
+  | "l2" :: ps => (parseLzma ps).map Filter.lzma2
+  | ["delta", d] => if d == "-" then some (.delta none) else d.toNat?.map fun x => .delta (some x)
+  | [name, arg] =>
+    if name.startsWith "bcj" then
+      match (name.drop 3).toNat? with
+      | none => none
+      | some id => if arg == "-" then some (.bcj id none) else arg.toNat?.map fun x => .bcj id (some x)
+    else none
+  | [name] => if name.startsWith "raw" then (name.drop 3).toNat?.map Filter.other else none
+  | _ => none
+
+def parseChain (s : String) : Option (List Filter) := (s.splitOn "+").mapM parseFilter
+
+/-- "ret live peak sizes leak=0" of an initialisation through a lzma_stream (lzma_internal is allocated first; a failed
+    initialisation frees everything). -/
+def fmtInit (ret : Nat) (sizes : List Nat) : String :=
+  let all := B.szInternal :: sizes
+  s!"{ret} {if ret = 0 then all.sum else 0} {all.sum} {fmtList all} leak=0"
+
+/-- Options copied by lzma_filters_copy (one allocation per filter with non-NULL options). -/
+def copiedOptions : List Filter → List Nat
+  | [] => []
+  | .lzma1 _ :: r | .lzma2 _ :: r => B.szOptionsLzma :: copiedOptions r
+  | .bcj _ (some _) :: r => B.szOptionsBcj :: copiedOptions r
+  | .delta (some _) :: r => B.szOptionsDelta :: copiedOptions r
+  | _ :: r => copiedOptions r
+
+def alIndex (prealloc : Nat) (ns : List Nat) : String :=
+  let step := fun (acc : Heap × Option Idx × List String × Bool) (kn : Nat × Nat) =>
+    let (h, dest, out, first) := acc
+    let (_, n) := kn
+    let h1 := h.allocs [B.szIndex, B.szIndexStream]
+    let i0 := if first ∧ prealloc > 0 then Idx.init.setPrealloc B prealloc else Idx.init
+    let (i1, as) := Idx.appendN B n i0
+    let h2 := h1.allocs as
+    match dest with
+    | none =>
+      (h2, some i1, s!"{h2.live}/{u64 (indexMemusage B i1.streams.length i1.blocks)}/{i1.streams.length}/{i1.blocks}" :: out, false)
+    | some d =>
+      let (d', a) := d.cat B i1
+      let h3 := match a with
+        | none => h2
+        | some sz =>
+          -- the new, smaller group is allocated before the old one is freed
+          let old := match d.streams.getLast? with
+            | some s => (match s.getLast? with | some g => groupBytes B g | none => 0)
+            | none => 0
+          (h2.alloc sz).free old
+      let h4 := h3.free B.szIndex
+      (h4, some d', s!"{h4.live}/{u64 (indexMemusage B d'.streams.length d'.blocks)}/{d'.streams.length}/{d'.blocks}" :: out, false)
+  let (h, _, out, _) := (ns.zipIdx.map fun (n, k) => (k, n)).foldl step (({} : Heap), none, [], true)
+  s!"{" ".intercalate out.reverse} ok peak={h.peak} allocs={fmtList h.reqs.reverse} leak=0"
+
+def step (_ : Unit) (ws : List String) : Unit × String :=
+  let bad := ((), "bad-op")
+  match ws with
+  | ["mu_lzdec", d] =>
+    match d.toNat? with
+    | some d => ((), toString (lzDecoderMemusage B d))
+    | none => bad
+  | ["mu_lzmadec", d, lc, lp, pb] =>
+    match [d, lc, lp, pb].mapM String.toNat? with
+    | some [d, lc, lp, pb] =>
+      let o : LzmaOpts := { dict := d, lc := lc, lp := lp, pb := pb }
+      ((), s!"{u64 (lzmaDecoderMemusage B o)} {lzma2DecoderMemusage B o}")
+    | _ => bad
+  | ["mu_lzenc", a, b, c, d, e, f, g] =>
+    match [a, b, c, d, e, f, g].mapM String.toNat? with
+    | some [before, dict, after, mmax, nice, mf, depth] =>
+      ((), u64 (lzEncoderMemusage B { beforeSize := before, dictSize := dict, afterSize := after, matchLenMax := mmax,
+                                        niceLen := nice, matchFinder := mf, depth := depth }))
+    | _ => bad
+  | "mu_lzmaenc" :: ps =>
+    match parseLzma ps with
+    | some o => ((), s!"{u64 (lzmaEncoderMemusage B o)} {u64 (lzma2EncoderMemusage B o)}")
+    | none => bad
+  | ["mu_raw", ch] =>
+    match parseChain ch with
+    | some fs => ((), s!"{u64 (rawDecoderMemusage B fs)} {u64 (rawEncoderMemusage B fs)}")
+    | none => ((), "bad-chain")
+  | ["mu_index", s, n] =>
+    match s.toNat?, n.toNat? with
+    | some s, some n => ((), u64 (indexMemusage B s n))
+    | _, _ => bad
+  | ["mu_outq", sz, t] =>
+    match sz.toNat?, t.toNat? with
+    | some sz, some t => ((), u64 (outqMemusage B sz (t % U32)))
+    | _, _ => bad
+  | ["mu_mtenc", t, bs, ch] =>
+    match t.toNat?, bs.toNat?, parseChain ch with
+    | some t, some bs, some fs =>
+      let blk := if bs > 0 then some bs else mtBlockSize fs
+      ((), s!"{u64 (streamEncoderMtMemusage B t bs fs)} {u64 (mtBlockSize fs)} {blockBufferBound64 (blk.getD UINT64_MAX)}")
+    | _, _, _ => ((), "bad-chain")
+  | ["al_rawdec", ch] =>
+    match parseChain ch with
+    | some fs => let (r, a) := rawDecoderInit B fs; ((), fmtInit r a)
+    | none => ((), "bad-chain")
+  | ["al_rawenc", ch] =>
+    match parseChain ch with
+    | some fs => let (r, a) := rawEncoderInit B fs; ((), fmtInit r a)
+    | none => ((), "bad-chain")
+  | ["al_streamenc", _, ch, hx] =>
+    match parseChain ch with
+    | some fs =>
+      let (r, a) := rawEncoderInit B fs
+      let pre := [B.szStreamEncoder, B.szIndex, B.szIndexStream] ++ copiedOptions fs ++ [B.szBlockEncoder] ++ a
+      -- a non-empty run appends one Record (first group of the Index) and initialises the Index encoder
+      let run := if hx == "-" ∨ r ≠ 0 then [] else [B.szIndexGroup + INDEX_GROUP_SIZE * B.szIndexRecord, B.szIndexEncoder]
+      let all := B.szInternal :: (pre ++ run)
+      let ret := if r ≠ 0 then r else if hx == "-" then 0 else 1
+      ((), s!"{ret} {if r = 0 then all.sum else 0} {all.sum} {fmtList all} leak=0")
+    | none => ((), "bad-chain")
+  | ["al_aloneenc", ch, hx] =>
+    match parseChain ch with
+    | some [Filter.lzma1 o] =>
+      let (r, a) := lzEncInitTrace B false o
+      let all := B.szInternal :: B.szAloneEncoder :: a
+      let ret := if r ≠ 0 then r else if hx == "-" then 0 else 1
+      ((), s!"{ret} {if r = 0 then all.sum else 0} {all.sum} {fmtList all} leak=0")
+    | _ => ((), "bad-chain")
+  | ["al_mtenc", t, bs, ch, _] =>
+    match t.toNat?, bs.toNat?, parseChain ch with
+    | some t, some bs, some fs =>
+      let est := streamEncoderMtMemusage B t bs fs
+      ((), s!"{if est.isSome then 1 else 8} {u64 est}")
+    | _, _, _ => ((), "bad-chain")
+  | "al_index" :: pre :: ns =>
+    match pre.toNat?, ns.mapM String.toNat? with
+    | some p, some ns => ((), alIndex p ns)
+    | _, _ => bad
+  | ["dec", kind, flags, limit, sets, _, hx] =>
+    match flags.toNat?, limit.toNat?, parseSets sets, bytesOfHex hx with
+    | some fl, some lim, some ss, some inp =>
+      if kind == "xz" then ((), runXz B fl lim ss inp)
+      else if kind == "alone" then ((), runAlone B lim ss inp)
+      else if kind == "lzip" then ((), runLzip B fl lim ss inp)
+      else if kind == "auto" then ((), runAuto B fl lim ss inp)
+      else bad
+    | _, _, _, _ => bad
+  | ["decmt", _, flags, lt, ls, sets, _, hx] =>
+    match flags.toNat?, lt.toNat?, ls.toNat?, parseSets sets, bytesOfHex hx with
+    | some fl, some lt, some ls, some ss, some inp => ((), runXzMt B fl lt ls ss inp)
+    | _, _, _, _, _ => bad
+  | ["idx", limit, sets, _, hx] =>
+    match limit.toNat?, parseSets sets, bytesOfHex hx with
+    | some lim, some ss, some inp => ((), runIndex B lim ss inp)
+    | _, _, _ => bad
+  | ["idxbuf", limit, hx] =>
+    match limit.toNat?, bytesOfHex hx with
+    | some lim, some inp => ((), runIndexBuf B lim inp)
+    | _, _ => bad
+  | "xzadj" :: rest => ((), XzAdjust.runLine B rest)
+  | _ => bad
+
+def main : IO Unit := runLoop step ()
